@@ -10,7 +10,7 @@ Open Scope N_scope.
             obs_threads [[res ; map+2 ; trace]] ; mains [[owner;listen;target;taddr+1;laddr+1]] ; glob ;
             cidx [[client;owner]] ; bycode [5] ; byid [5] ; claimset ; ticked ; admk? ; admission markers left ] *)
 Definition dec_cfg (v : tval) : cfg :=
-  {| use_claim := vbool (vnth 0 v); create_cleanup := vbool (vnth 1 v); use_admit := vbool (vnth 17 v); purge_revoked := false |}.
+  {| use_claim := vbool (vnth 0 v); create_cleanup := vbool (vnth 1 v); use_adm := vbool (vnth 17 v); purge_revoked := false |}.
 Definition dec_params (v : tval) : params :=
   let pre := map (fun e => (vn (vnth 0 e), vnat (vnth 1 e))) (vl (vnth 3 v)) in
   {| p_tgt := vn (vnth 5 v); p_taddr := vn (vnth 6 v); p_qmax := vnat (vnth 2 v);
